@@ -167,7 +167,9 @@ def wire_filename(fn: str) -> str:
 def check_request(rec: hw.CallRec, cap, own_transport, V):
     tag = "caller%d.call%d(%s)" % (rec.caller, rec.k, rec.spec["via"])
     q, op, variables, objs = rec.inputs
-    exp = expected_request(q, op, variables)
+    import copy as _copy
+    # (the expectation was taken when the call was issued: the caller may have edited its objects since)
+    exp = _copy.deepcopy(rec.expected) if getattr(rec, "expected", None) is not None else expected_request(q, op, variables)
     can = canonical_request(cap)
     if rec.spec["via"] != "execute":
         # the embedded operation text is compared up to whitespace (its exact layout is C02's business)
@@ -312,7 +314,7 @@ def _short(x):
 def expected_outcome(rec: hw.CallRec):
     q, op, variables, objs = rec.inputs
     from ..models.request_model import variables_json
-    vj, _ = variables_json(variables)
+    vj = rec.expected_vj if getattr(rec, "expected_vj", None) is not None else variables_json(variables)[0]
     return conformant_data(op if rec.spec["via"] != "execute" else None, vj, rec.nonce)
 
 
